@@ -35,6 +35,7 @@ fn gen(family: &str, profile: &str, seed: u64, count: usize, size: usize) -> Vec
                 let p = match profile {
                     "weights" => store::Profile::Weights,
                     "degrees" => store::Profile::Degrees,
+                    "big" => store::Profile::Big,
                     _ => store::Profile::General,
                 };
                 store::gen_case(&mut r, p, size).request()
